@@ -923,3 +923,154 @@ Proof.
   eexists. eexists. split; [reflexivity|]. split; [reflexivity|]. split; [reflexivity|].
   split; [vm_compute; right; left; reflexivity|]. split; vm_compute; discriminate.
 Qed.
+
+(* ---------- round trip of the extra flavour (containerd's wrapper + AppendExtraLabelsHandler, CRI reader) ---------- *)
+Definition own_urls (children : list child) (i : nat) (d : str) : option str :=
+  match layer_from_digest children d with
+  | Some ch => if c_layer ch then Some (urls_value (KUrlsIdx i) (c_urls ch)) else None
+  | None => None
+  end.
+
+Lemma extra_urls_lget : forall children ds j acc l,
+  extra_urls children j ds acc = Some l ->
+  (forall i, j <= i -> lget acc (KUrlsIdx i) = None) ->
+  forall i, lget l (KUrlsIdx i) =
+            if i <? j then lget acc (KUrlsIdx i)
+            else match nth_error ds (i - j) with Some d => own_urls children i d | None => None end.
+Proof.
+  intros children. induction ds as [|d t IH]; intros j acc l H Hacc i; cbn [extra_urls] in H.
+  - inversion H; subst. destruct (i <? j) eqn:E; [reflexivity|]. apply Nat.ltb_ge in E.
+    rewrite Hacc by exact E. destruct (i - j); reflexivity.
+  - destruct (digest_valid d); [|discriminate].
+    set (acc' := match layer_from_digest children d with
+                 | Some ch => if c_layer ch then lset_absent acc (KUrlsIdx j) (urls_value (KUrlsIdx j) (c_urls ch)) else acc
+                 | None => acc end) in *.
+    assert (Hother : forall i', i' <> j -> lget acc' (KUrlsIdx i') = lget acc (KUrlsIdx i')).
+    { intros i' Hne. unfold acc'. destruct (layer_from_digest children d) as [ch|]; [|reflexivity].
+      destruct (c_layer ch); [|reflexivity]. unfold lset_absent. rewrite (Hacc j) by lia.
+      apply lget_lset_other. cbn [key_eqb]. apply Nat.eqb_neq. lia. }
+    assert (Hj : lget acc' (KUrlsIdx j) = own_urls children j d).
+    { unfold acc', own_urls. destruct (layer_from_digest children d) as [ch|]; [|apply Hacc; lia].
+      destruct (c_layer ch); [|apply Hacc; lia]. unfold lset_absent. rewrite (Hacc j) by lia. apply lget_lset_same. }
+    rewrite (IH (S j) acc' l H); [|intros i' Hi'; rewrite Hother by lia; apply Hacc; lia].
+    destruct (i <? S j) eqn:E1.
+    + apply Nat.ltb_lt in E1. destruct (i <? j) eqn:E2.
+      * apply Nat.ltb_lt in E2. apply Hother. lia.
+      * apply Nat.ltb_ge in E2. assert (i = j) by lia. subst i. rewrite Nat.sub_diag. cbn [nth_error]. exact Hj.
+    + apply Nat.ltb_ge in E1. assert (E2 : i <? j = false) by (apply Nat.ltb_ge; lia). rewrite E2.
+      replace (i - j) with (S (i - S j)) by lia. reflexivity.
+Qed.
+
+Lemma read_neigh_valid : forall l target ds i, forallb digest_valid ds = true ->
+  read_neigh l target i ds = Some (neigh_spec l target i ds).
+Proof.
+  intros l target. induction ds as [|d t IH]; intros i H; [reflexivity|].
+  cbn [forallb] in H. apply andb_true_iff in H. destruct H as [H1 H2].
+  cbn [read_neigh]. rewrite H1. rewrite (IH (S i) H2).
+  unfold neigh_spec. cbn [length seq combine filter snd fst].
+  destruct (str_eqb d target); cbn [negb map snd fst]; reflexivity.
+Qed.
+
+Lemma extra_l2_eq : forall ref md c rest v1 v2,
+  lset_absent (lset_absent (cri_ann ref md (c :: rest)) KUrls v1) KPrefetch v2
+  = [(KCriRef, ref); (KCriDigest, c_digest c); (KCriLayers, cri_layers_value (c :: rest)); (KCriManifest, md);
+     (KUrls, v1); (KPrefetch, v2)].
+Proof. reflexivity. Qed.
+
+Lemma layer_from_digest_own : forall children d ch, layer_from_digest children d = Some ch ->
+  In ch children /\ c_digest ch = d.
+Proof.
+  intros children d ch H. unfold layer_from_digest in H. apply find_some in H. destruct H as [H1 H2].
+  split; [exact H1|]. apply str_eqb_eq. exact H2.
+Qed.
+
+Lemma roundtrip_extra : forall (parse_ref : str -> option str) children ref R pf md c rest l,
+  extra_ann children ref pf md (c :: rest) = Some l ->
+  parse_ref ref = Some R -> digest_valid (c_digest c) = true ->
+  let ds := split_comma (cri_layers_value (c :: rest)) in
+  read_cri parse_ref l = ROk R (c_digest c) (wire KUrls (c_urls c)) (neigh_spec l (c_digest c) 0 ds)
+  /\ (forall i d, nth_error ds i = Some d ->
+        urls_of l (KUrlsIdx i)
+        = match layer_from_digest children d with
+          | Some ch => if c_layer ch then wire (KUrlsIdx i) (c_urls ch) else []
+          | None => []
+          end)
+  /\ (forall d ch, layer_from_digest children d = Some ch -> In ch children /\ c_digest ch = d).
+Proof.
+  intros parse_ref children ref R pf md c rest l H Href Hdc ds.
+  cbn [extra_ann] in H. unfold extra_over in H. rewrite extra_l2_eq in H.
+  cbn [lget key_eqb] in H. fold ds in H.
+  set (l2 := [(KCriRef, ref); (KCriDigest, c_digest c); (KCriLayers, cri_layers_value (c :: rest)); (KCriManifest, md);
+              (KUrls, urls_value KUrls (c_urls c)); (KPrefetch, show_Z pf)]) in *.
+  assert (Hk : forall k, (forall i, key_eqb (KUrlsIdx i) k = false) -> lget l k = lget l2 k).
+  { intros k Hk. apply (extra_urls_keeps _ _ _ _ _ k H Hk). }
+  assert (Hidx : forall i, lget l (KUrlsIdx i)
+                           = match nth_error ds i with Some d => own_urls children i d | None => None end).
+  { intro i. rewrite (extra_urls_lget _ _ _ _ _ H); [|intros i' _; reflexivity].
+    cbn [Nat.ltb Nat.leb]. rewrite Nat.sub_0_r. reflexivity. }
+  assert (Hvalid : forallb digest_valid ds = true).
+  { clear - H. revert H. generalize 0 as j. generalize l2 as acc. induction ds as [|d t IH]; intros acc j H; [reflexivity|].
+    cbn [extra_urls] in H. cbn [forallb]. destruct (digest_valid d); [|discriminate]. cbn [andb]. exact (IH _ _ H). }
+  split; [|split].
+  - unfold read_cri, read_with. rewrite !Hk by reflexivity. cbn [lget key_eqb]. rewrite Href, Hdc.
+    fold ds. rewrite (read_neigh_valid _ _ _ _ Hvalid). unfold urls_of, wire. rewrite Hk by reflexivity. reflexivity.
+  - intros i d Hnth. unfold urls_of. rewrite Hidx, Hnth. unfold own_urls, wire.
+    destruct (layer_from_digest children d) as [ch|]; [|reflexivity]. destruct (c_layer ch); reflexivity.
+  - exact (layer_from_digest_own children).
+Qed.
+
+(* what containerd's wrapper puts into cri.image-layers is a manifest-order prefix of the layer digests of children[i:] *)
+Lemma cri_scan_prefix : forall cs used, exists n, cri_scan used cs = firstn n (map c_digest (filter c_layer cs)).
+Proof.
+  induction cs as [|c t IH]; intro used; cbn [cri_scan filter].
+  - exists 0. reflexivity.
+  - destruct (c_layer c); [|apply IH].
+    destruct (key_len KCriLayers + (used + ((if used =? 0 then 0 else 1) + length (c_digest c))) <=? max_label).
+    + destruct (IH (used + ((if used =? 0 then 0 else 1) + length (c_digest c)))) as [n Hn].
+      exists (S n). cbn [map firstn]. rewrite Hn. reflexivity.
+    + exists 0. reflexivity.
+Qed.
+
+Lemma cri_layers_split : forall suffix,
+  Forall (fun x => c_layer x = true -> digest_valid (c_digest x) = true) suffix ->
+  cri_scan 0 suffix <> [] ->
+  split_comma (cri_layers_value suffix) = cri_scan 0 suffix.
+Proof.
+  intros suffix HF Hne. unfold cri_layers_value.
+  destruct (cri_scan_prefix suffix 0) as [n Hn].
+  assert (Hall : Forall (fun d => digest_valid d = true) (cri_scan 0 suffix)).
+  { rewrite Hn. apply Forall_forall. intros d Hd.
+    assert (Hd' : In d (map c_digest (filter c_layer suffix))).
+    { rewrite <- (firstn_skipn n (map c_digest (filter c_layer suffix))). apply in_or_app. left. exact Hd. }
+    apply in_map_iff in Hd'. destruct Hd' as [x [Hx1 Hx2]]. apply filter_In in Hx2. destruct Hx2 as [Hx2 Hx3].
+    subst d. rewrite Forall_forall in HF. apply HF; assumption. }
+  assert (Hdrop : drop_empty (cri_scan 0 suffix) = cri_scan 0 suffix).
+  { destruct (cri_scan 0 suffix) as [|d t]; [reflexivity|]. inversion Hall; subst.
+    destruct (digest_valid_props _ H1) as [_ [Hd _]]. destruct d; [congruence|reflexivity]. }
+  rewrite Hdrop. apply split_join; [|exact Hne].
+  rewrite Forall_forall in *. intros d Hd. destruct (digest_valid_props _ (Hall d Hd)) as [Hnc _]. exact Hnc.
+Qed.
+
+Lemma cri_scan_nonempty : forall c rest, c_layer c = true -> digest_valid (c_digest c) = true ->
+  cri_scan 0 (c :: rest) <> [].
+Proof.
+  intros c rest Hc Hd. cbn [cri_scan]. rewrite Hc. cbn [Nat.eqb Nat.add].
+  destruct (digest_valid_props _ Hd) as [_ [_ Hlen]].
+  assert (E : key_len KCriLayers + length (c_digest c) <=? max_label = true).
+  { apply Nat.leb_le. pose proof (key_len_fixed KCriLayers) as H3. cbn beta iota in H3. unfold max_label. lia. }
+  rewrite E. discriminate.
+Qed.
+
+Lemma roundtrip_extra_layers : forall c rest,
+  c_layer c = true -> digest_valid (c_digest c) = true ->
+  Forall (fun x => c_layer x = true -> digest_valid (c_digest x) = true) rest ->
+  exists n, split_comma (cri_layers_value (c :: rest)) = firstn n (map c_digest (filter c_layer (c :: rest))) /\ 1 <= n.
+Proof.
+  intros c rest Hc Hd HF.
+  assert (HF' : Forall (fun x => c_layer x = true -> digest_valid (c_digest x) = true) (c :: rest)).
+  { constructor; [intro; exact Hd|exact HF]. }
+  pose proof (cri_scan_nonempty c rest Hc Hd) as Hne.
+  rewrite (cri_layers_split _ HF' Hne).
+  destruct (cri_scan_prefix (c :: rest) 0) as [n Hn]. exists n. split; [exact Hn|].
+  destruct n; [|lia]. rewrite Hn in Hne. cbn [firstn] in Hne. congruence.
+Qed.
